@@ -285,6 +285,57 @@ def run(tier, seed):
                     chk.nontrivial(('portfolio', name, tz))
             except Exception as e:
                 chk.violation(dict(sel, step='setup_loaded', error=type(e).__name__), 'the loaded portfolio cannot be set up: %s: %s' % (type(e).__name__, str(e)[:100]), dict(portfolio=name))
+    # ---- (4) the parameter tree (io.get_params_tree / get_param / set_param = edit of the saved tree + load; EAOSerial.SetParam)
+    def walk(tree, path):
+        for k in path:
+            tree = tree[k]
+        return tree
+    rnd = __import__('random').Random(seed)
+    for z in zoo.ZOO:
+        name, pf, pr, tg = z(seed)
+        for obj in list(pf.assets) + [pf]:
+            kind = type(obj).__name__
+            label = '%s:%s' % (name, kind)
+            sel = dict(check='param_tree', object=name, kind='LinkedAsset' if (kind == 'LinkedAsset' or (kind == 'Portfolio' and name == 'linked')) else kind)
+            if sel['kind'] == 'LinkedAsset':
+                chk.cnt['param_tree_skipped_not_loadable'] += 1      # known finding F11: cannot be loaded at all
+                continue
+            try:
+                with quiet():
+                    keys, tree = eao.io.get_params_tree(obj)
+                    s0 = json.loads(eao.serialization.to_json(obj))
+            except Exception as e:
+                chk.violation(dict(sel, step='tree', error=type(e).__name__), 'get_params_tree raised %s: %s' % (type(e).__name__, str(e)[:100]), dict(object=label))
+                continue
+            paths = [k if isinstance(k, list) else [k] for k in keys]
+            rnd.shuffle(paths)
+            ok = True
+            for path in paths[:12 if tier == 'quick' else 60]:
+                chk.cnt['eval_param_paths'] += 1
+                try:
+                    with quiet():
+                        v = eao.io.get_param(obj, path)
+                    if json.dumps(v, sort_keys=True, default=str) != json.dumps(walk(tree, path), sort_keys=True, default=str):
+                        chk.violation(dict(sel, step='get_param'), 'get_param%s differs from the parameter tree' % (path,), dict(object=label, path=path))
+                        ok = False
+                        continue
+                    with quiet():
+                        obj2 = eao.io.set_param(obj, path, v)
+                        s2 = json.loads(eao.serialization.to_json(obj2))
+                        s1 = json.loads(eao.serialization.to_json(obj))
+                except Exception as e:
+                    chk.violation(dict(sel, step='set_param', error=type(e).__name__), 'set_param%s with the value it already has raised %s: %s' % (path, type(e).__name__, str(e)[:100]),
+                                  dict(object=label, path=path))
+                    ok = False
+                    continue
+                if s1 != s0:
+                    chk.violation(dict(sel, step='set_param_mutates'), 'set_param%s changed the object it was given' % (path,), dict(object=label, path=path))
+                    ok = False
+                if s2 != s0:
+                    chk.violation(dict(sel, step='set_param_identity'), 'set_param%s with the value the leaf already has gives another object' % (path,), dict(object=label, path=path))
+                    ok = False
+            if ok:
+                chk.nontrivial(('param_tree', label))
     chk.traces = 0
     chk.sample(dict(kind='class descriptor evaluated by TLC', descriptor={k: (sorted(v) if isinstance(v, set) else v) for k, v in desc[0].items()}))
     chk.sample(dict(kind='round trip', object=items[0][0]))
